@@ -76,12 +76,21 @@ let () =
       | "qput" :: a :: m :: nb :: _ ->
           let a' = int_of_string a in
           Hashtbl.replace kind a' 1;
-          if nb = "1" then qstep (MAioPut (n_of_int a', n_of_int (int_of_string m), false)) [Printf.sprintf "%d:5:kept" a']
+          (* with a zero timeout nni_aio_start refuses -- but it is only reached when the
+             operation would have to wait (same test as in the model) *)
+          let must_start = (match !mq with
+            | Some q -> q.mq_putq <> [] || (q.mq_getq = [] && int_of_nat q.mq_cap <= int_of_nat q.mq_len)
+            | None -> false) in
+          if nb = "1" then qstep (MAioPut (n_of_int a', n_of_int (int_of_string m), false))
+                             (if must_start then [Printf.sprintf "%d:5:kept" a'] else [])
           else qstep (MAioPut (n_of_int a', n_of_int (int_of_string m), true)) []
       | "qget" :: a :: nb :: _ ->
           let a' = int_of_string a in
           Hashtbl.replace kind a' 2;
-          if nb = "1" then qstep (MAioGet (n_of_int a', false)) [Printf.sprintf "%d:5:-" a']
+          let must_start = (match !mq with
+            | Some q -> q.mq_getq <> [] || (int_of_nat q.mq_len = 0 && q.mq_putq = [])
+            | None -> false) in
+          if nb = "1" then qstep (MAioGet (n_of_int a', false)) (if must_start then [Printf.sprintf "%d:5:-" a'] else [])
           else qstep (MAioGet (n_of_int a', true)) []
       | "qtryput" :: m :: _ -> qstep (MTryPut (n_of_int (int_of_string m))) []
       | "qcancel" :: a :: _ ->
